@@ -3,11 +3,15 @@
 # Writes /verif/seeded/MATRIX.md. The tree ($REPO, default /repo) must be clean; each patch is applied and reverted.
 REPO=${REPO:-/repo}
 cd /verif
-out=seeded/MATRIX.md
+out=${OUT:-seeded/MATRIX.md}
+# OUT=<file> with a list of seeded/<id> directories as arguments evaluates a part (rows only, no header)
+if [ $# -gt 0 ]; then : > $out; else
 echo "| seeded change | property | own check | own rule(s) firing | other properties' rules firing |" > $out
 echo "|---|---|---|---|---|" >> $out
+fi
 if [ -n "$(git -C $REPO status --porcelain)" ]; then echo "$REPO is dirty, refusing"; exit 2; fi
-for d in seeded/C*-m*; do
+if [ $# -gt 0 ]; then dirs="$@"; else dirs=$(ls -d seeded/C*-m*); fi
+for d in $dirs; do
   prop=$(python3 -c "import json;print(json.load(open('$d/meta.json'))['property'])")
   patch=$(python3 -c "import json;print(json.load(open('$d/meta.json'))['patch'])")
   if ! git -C $REPO apply /verif/$d/$patch 2>/dev/null; then
